@@ -11,6 +11,7 @@ import (
 	"bytes"
 	"fmt"
 	"html/template"
+	"math"
 	"path"
 	"reflect"
 	"sort"
@@ -364,6 +365,9 @@ func PrintValue(v interface{}) []byte {
 	case reflect.Uint, reflect.Uint8, reflect.Uint16, reflect.Uint32, reflect.Uint64:
 		return []byte(strconv.FormatUint(rv.Uint(), 10))
 	case reflect.Float32, reflect.Float64:
+		if math.IsNaN(rv.Float()) {
+			return []byte("Nan") // (the printer's spelling; how a NaN is written is not part of any statement)
+		}
 		return []byte(strconv.FormatFloat(rv.Float(), 'f', -1, 64))
 	case reflect.Bool:
 		return []byte(strconv.FormatBool(rv.Bool()))
@@ -679,15 +683,20 @@ func (in *Interp) iterOf(n *Node, v interface{}) iter {
 			return i - 1, rv.Index(i - 1).Interface(), true
 		}}
 	case reflect.Map:
-		keys := rv.MapKeys()
-		sort.Slice(keys, func(a, b int) bool { return fmt.Sprint(keys[a].Interface()) < fmt.Sprint(keys[b].Interface()) })
+		// entries, not keys looked up again: a key that is not equal to itself (NaN) has a value all the same
+		type entry struct{ k, v interface{} }
+		var entries []entry
+		for it := rv.MapRange(); it.Next(); {
+			entries = append(entries, entry{it.Key().Interface(), it.Value().Interface()})
+		}
+		sort.SliceStable(entries, func(a, b int) bool { return fmt.Sprint(entries[a].k) < fmt.Sprint(entries[b].k) })
 		i := 0
 		return iter{true, func() (interface{}, interface{}, bool) {
-			if i >= len(keys) {
+			if i >= len(entries) {
 				return nil, nil, false
 			}
 			i++
-			return keys[i-1].Interface(), rv.MapIndex(keys[i-1]).Interface(), true
+			return entries[i-1].k, entries[i-1].v, true
 		}}
 	case reflect.Chan:
 		return iter{false, func() (interface{}, interface{}, bool) {
@@ -843,7 +852,7 @@ func (in *Interp) lookupVar(name string) (interface{}, bool) {
 	return nil, false
 }
 
-var builtinNames = map[string]bool{"lower": true, "upper": true, "hasPrefix": true, "hasSuffix": true, "repeat": true, "replace": true, "split": true, "trimSpace": true, "html": true, "url": true, "safeHtml": true, "safeJs": true, "raw": true, "unsafe": true, "writeJson": true, "json": true, "map": true, "slice": true, "array": true, "isset": true, "len": true, "includeIfExists": true, "exec": true, "ints": true, "dump": true}
+var builtinNames = map[string]bool{"lower": true, "upper": true, "hasPrefix": true, "hasSuffix": true, "repeat": true, "replace": true, "split": true, "trimSpace": true, "html": true, "url": true, "safeHtml": true, "safeJs": true, "raw": true, "unsafe": true, "writeJson": true, "json": true, "map": true, "slice": true, "array": true, "isset": true, "len": true, "includeIfExists": true, "exec": true, "ints": true, "dump": true, "addGlobalNow": true}
 
 // member: a.name — struct field (exported), map entry, or method without arguments.
 func (in *Interp) member(at *Node, v interface{}, name string) (interface{}, bool) {
@@ -1152,7 +1161,15 @@ func (in *Interp) call(at *Node, name string, argExprs []*Expr, piped interface{
 	if hasPiped {
 		args = append(args, piped)
 	}
-	for _, a := range argExprs {
+	// exec / includeIfExists look the template up first: the context argument is only evaluated for a template
+	// that is there (a missing one renders nothing and that is that)
+	var lazyCtx *Expr
+	for i, a := range argExprs {
+		if (name == "exec" || name == "includeIfExists") && len(args) == 1 && i == len(argExprs)-1 {
+			lazyCtx = a
+			args = append(args, nil)
+			continue
+		}
 		args = append(args, in.eval(at, a))
 	}
 	need := func(n int) {
@@ -1162,6 +1179,11 @@ func (in *Interp) call(at *Node, name string, argExprs []*Expr, piped interface{
 	}
 	if f, ok := in.Funcs[name]; ok {
 		return f(in, args)
+	}
+	if name == "addGlobalNow" {
+		need(2)
+		in.globals[str(at, in, args[0])] = args[1]
+		return nil
 	}
 	if strings.HasPrefix(name, "ifunc:") {
 		// a variable holding a Go function that returns interface{}: the value inside is the result
@@ -1231,6 +1253,9 @@ func (in *Interp) call(at *Node, name string, argExprs []*Expr, piped interface{
 		saved := in.ctx
 		defer func() { in.ctx = saved }()
 		if len(args) == 2 {
+			if lazyCtx != nil {
+				args[1] = in.eval(at, lazyCtx)
+			}
 			in.ctx = args[1]
 		}
 		if name == "exec" {
